@@ -256,16 +256,15 @@ fn run_op(op: &str) -> String {
             if chk == "ok" {
                 let p = MldAddressRecord::new_unchecked(&bytes[..]);
                 s += &format!(
-                    " acc type={} aux={} nsrc={} addr={} payload={} parse {}",
+                    " acc type={} aux={} nsrc={} addr={} payload={}",
                     acc(|| u8::from(p.record_type()), |t| t.to_string()),
                     acc(|| p.aux_data_len(), |t| t.to_string()),
                     acc(|| p.num_srcs(), |t| t.to_string()),
                     acc(|| p.mcast_addr().octets().to_vec(), |a| hex(&a)),
                     acc(|| p.payload().to_vec(), |a| show_bytes(&a)),
-                    parse_rec(&bytes)
                 );
             }
-            return s;
+            return format!("{} parse {}", s, parse_rec(&bytes));
         }
         let chk = acc(|| Icmpv6Packet::new_checked(&bytes[..]).is_ok(), |ok| if ok { "ok".into() } else { "err".into() });
         let mut s = format!("chk {}", chk);
